@@ -237,7 +237,7 @@ class Repo:
                     alias = (key[0], key[1] + q[len(b[1]):])
                     if alias not in self.funcs:
                         self.funcs[alias] = fi
-                        self.inherited[alias] = (f, q)
+                        self.inherited[alias] = (fi.file, fi.qual)  # the defining function itself (the base may have inherited it in turn)
 
     def _index(self, rel, tree):
         def visit(node, prefix, cls, parent):
